@@ -40,6 +40,8 @@ THEOREMS = [
     "C13_ctor_zombie_witness",
     "C13_workflow_ctor_witness",
     "C13_load_orphans_witness",
+    "C13_construct_all_or_nothing",
+    "C13_construct_log_order_witness",
 ]
 RULE = (
     "seeded random histories (4-28 ops) over 2-5 composites (strict/non-strict workflows, macros, a macro "
@@ -85,7 +87,7 @@ TRIGGER = {"new": "construct", "add": "add_child", "setattr": "add_child", "seti
            "setparent": "parent-assign", "remove": "remove_child", "removelbl": "remove_child",
            "replace": "replace_child", "replacelbl": "replace_child", "setstart": "set-starting", "raw": "raw",
            "newfail": "construct", "newwith": "construct", "replacecls": "replace_child",
-           "reload": "load-in-place", "pickle": "pickle-roundtrip"}
+           "reload": "load-in-place", "pickle": "pickle-roundtrip", "connect": "connect"}
 
 
 # ----------------------------------------------------------------------------- generation
@@ -357,6 +359,8 @@ def gen_cases(rng, tier):
             if n == 3 and seq[2][0] in ("add", "setparent", "remove"):
                 continue  # the third step is one of the new operations
             yield {"world": EX_WORLD2, "ops": EX_PREFIX + [list(o) for o in seq]}
+    for c in _construct_cases(rng, tier):
+        yield c
     # observe-and-check scenarios: ownership through the library's other mutating paths
     for sc in _scenarios(rng, tier):
         yield sc
@@ -378,6 +382,37 @@ def gen_cases(rng, tier):
             ])
             ops.insert(k, bad)
         yield c
+
+
+# constructor adoption: 0 the workflow under construction (strict / non-strict), 1 a by-standing owner, 2 a workflow
+# offered as argument, 3 an orphan macro labelled x (4 its inner child), 5-7 orphan leaves all labelled x, 8 orphan y,
+# 9 a leaf owned by 1
+def _construct_world(strict):
+    return ([{"kind": "wf", "strict": strict}, {"kind": "wf", "strict": True}, {"kind": "wf", "strict": True},
+             {"kind": "macro", "strict": True}, {"kind": "inner", "strict": True, "of": 3}]
+            + [{"kind": "leaf", "strict": True} for _ in range(5)])
+
+
+CONSTRUCT_PREFIX = [["new", 1, "o", None], ["new", 2, "z", None], ["new", 3, "x", None], ["new", 5, "x", None],
+                    ["new", 6, "x", None], ["new", 7, "x", None], ["new", 8, "y", None], ["new", 9, "t", 1],
+                    ["connect", 5, 6], ["connect", 8, 9], ["connect", 7, 5]]
+CONSTRUCT_POOL = [5, 6, 7, 8, 3, 9, 2]
+
+
+def _construct_cases(rng, tier):
+    """`Workflow(label, *nodes, strict_naming=…, **inputs)` for every argument list up to length 3 (4) over orphans
+    with equal labels, an orphan macro, an owned node and a workflow, in both naming modes, with and without a failure
+    after the adoption loop; then the same nodes are offered to a second construction"""
+    depth = 3 if tier == "quick" else 4
+    for strict in (True, False):
+        world = _construct_world(strict)
+        for n in range(1, depth + 1):
+            for kids in itertools.product(CONSTRUCT_POOL, repeat=n):
+                if n == depth and tier != "quick" and rng.random() < 0.5:
+                    continue
+                for fails in (False, True):
+                    yield {"world": world, "ops": CONSTRUCT_PREFIX + [
+                        ["newwith", 0, "v", list(kids), fails], ["newwith", 0, "v", [k for k in (5, 8) if True], False]]}
 
 
 def _scenarios(rng, tier):
@@ -446,6 +481,11 @@ def corpus():
     yield {"world": ww, "ops": [["new", 2, "a", None], ["new", 4, "b", None], ["newwith", 1, "v", [2, 4], True]]}
     yield {"world": ww, "ops": [["new", 2, "a", None], ["new", 4, "b", None], ["newwith", 1, "v", [2, 4], False],
                                 ["replacecls", 1, "a", 3], ["pickle", 1], ["reload", 1]]}
+    # seeded C13-9: non-strict workflow, equal labels get suffixed, then a rejection: labels must come back
+    yield {"world": _construct_world(False), "ops": CONSTRUCT_PREFIX + [["newwith", 0, "v", [5, 6, 7, 9], False]]}
+    yield {"world": _construct_world(False), "ops": CONSTRUCT_PREFIX + [["newwith", 0, "v", [5, 3, 6], True],
+                                                                       ["newwith", 0, "v", [5, 3, 6, 2], False],
+                                                                       ["newwith", 0, "v", [5, 3, 6], False]]}
     # KF-C13-13: load() in place on an owned node orphans it while the owner keeps listing it
     yield {"world": wl, "ops": [["new", 0, "w", None], ["new", 3, "a", 0], ["reload", 3]]}
     yield {"world": wl, "ops": [["new", 0, "w", None], ["new", 1, "m", 0], ["reload", 1], ["pickle", 0]]}
@@ -661,7 +701,17 @@ def _snapshot(objs, world):
             st = sorted((index.get(id(v), "?") for v in o.starting_nodes), key=lambda x: str(x).zfill(6))
             clash = [k for k in o.children if hasattr(type(o), k) or k in vars(o)]
             comps.append([i, ch, st, clash])
-    return {"nodes": nodes, "comps": comps}
+    conns = []
+    for i in sorted(objs):
+        o = objs[i]
+        part = []
+        if not isinstance(o, Composite):
+            for panel in (o.inputs, o.outputs):
+                for ch in panel:
+                    for other in ch.connections:
+                        part.append(str(index.get(id(other.owner), "?")) + ":" + other.label)
+        conns.append([i, sorted(part)])
+    return {"nodes": nodes, "comps": comps, "conns": conns}
 
 
 def _fmt(res, snap):
@@ -981,6 +1031,14 @@ def run_impl(case):
 
                     cp = pickle.loads(pickle.dumps(objs[c]))
                     extra = {"observe": "pickle", "orig": _subtree(objs[c]), "copy": _subtree(cp)}
+            elif kind == "connect":
+                a, b = op[1], op[2]
+                leafy = lambda i: i in objs and world[i]["kind"] in ("leaf", "inner")  # noqa: E731
+                if not leafy(a) or not leafy(b) or a == b:
+                    res = "skip"
+                else:
+                    extra = {"observe": "connect"}
+                    objs[b].inputs.user_input.connect(objs[a].outputs.user_input)
             elif kind == "setstart":
                 p, ids = op[1], op[2]
                 if not comp(p) or any(i not in objs for i in ids):
@@ -996,7 +1054,7 @@ def run_impl(case):
             if setup_stage and res == "ValueError":
                 res = "SetupError"
         snap = _snapshot(objs, world)
-        if kind in ("reload", "pickle") and res not in ("ok", "skip") and snap == prev:
+        if kind in ("reload", "pickle", "connect") and res not in ("ok", "skip") and snap == prev:
             # storage refused (e.g. a non-child that the user put among the starting nodes cannot be saved): not an
             # ownership operation at all
             res = "skip"
@@ -1076,7 +1134,7 @@ def model_input(case, impl=None):
         if st is not None and st["res"] == "skip":
             continue
         observe = (st or {}).get("extra", {}).get("observe") if st else None
-        if observe == "pickle" or (st is None and op[0] == "pickle"):
+        if observe in ("pickle", "connect") or (st is None and op[0] in ("pickle", "connect")):
             continue
         if resync:
             for i, l, p, _ok in st["snap"]["nodes"]:
@@ -1131,7 +1189,7 @@ def corr_view(case, impl):
     if "scenario" in case:
         return []
     return [line for (_op, st, resync), line in zip(_walk(case, impl), impl["obs"])
-            if st["res"] != "skip" and not resync and st.get("extra", {}).get("observe") != "pickle"]
+            if st["res"] != "skip" and not resync and st.get("extra", {}).get("observe") not in ("pickle", "connect")]
 
 
 # ----------------------------------------------------------------------------- oracle (independent of the model)
@@ -1212,6 +1270,8 @@ def _delta(prev, snap):
         d.append("children")
     if any(pc[i][1] != sc[i][1] for i in pc if i in sc):
         d.append("starting")
+    if prev.get("conns") != snap.get("conns") and {i for i, _c in prev.get("conns", [])} == {i for i, _c in snap.get("conns", [])}:
+        d.append("connections")
     return "+".join(d)
 
 
@@ -1284,7 +1344,7 @@ def oracle(case, r):
                 return [_fail(clause, 0, case, f"stage {st['stage']}: {detail}", {"trigger": trig, "stage": st["stage"]})]
         return []
     world = case["world"]
-    prev = {"nodes": [], "comps": []}
+    prev = {"nodes": [], "comps": [], "conns": []}
     excused: dict = {}
     for k, st in enumerate(r["states"]):
         op, res, snap = st["op"], st["res"], st["snap"]
